@@ -129,10 +129,23 @@ def gen_cases(seed, chunk, n, tier):
                         if block_dtypes(s) - {REAL_OF[dtype]}:
                             orc = f"singular values of {dtype} data have dtype {sorted(block_dtypes(s))}"
                             break
-                        q, r = sr.linalg.qr(x)
-                        if block_dtypes(q) - {dtype} or block_dtypes(r) - {dtype}:
-                            orc = f"qr factors of {dtype} data have dtypes {sorted(block_dtypes(q) | block_dtypes(r))}"
+                        for stab in (False, True):
+                            q, r = sr.linalg.qr(x, stabilized=stab)
+                            if block_dtypes(q) - {dtype} or block_dtypes(r) - {dtype}:
+                                orc = (f"qr(stabilized={stab}) factors of {dtype} data have dtypes "
+                                       f"{sorted(block_dtypes(q) | block_dtypes(r))}")
+                                break
+                        if orc:
                             break
+                        if str(x.charge) == str(x.symmetry.combine()) and all(
+                                np.shape(b)[0] == np.shape(b)[1] for b in x.blocks.values()):
+                            try:
+                                w, ev = sr.linalg.eigh(x)
+                                if block_dtypes(ev) - {dtype} or block_dtypes(w) - {REAL_OF[dtype]}:
+                                    orc = f"eigh of {dtype} data changed dtype"
+                                    break
+                            except np.linalg.LinAlgError:
+                                pass
                         ut, st_, vt = sr.linalg.svd_truncated(x, max_bond=2, absorb=None)
                         if block_dtypes(ut) - {dtype} or block_dtypes(vt) - {dtype} or block_dtypes(st_) - {REAL_OF[dtype]}:
                             orc = f"svd_truncated of {dtype} data changed dtype"
